@@ -459,7 +459,14 @@ def case_op(mon, kind, op, av, bt, bv):
     if sym == "**" and lv == 0 and rv < 0:
         zero_div = True
     if sym in ("/", "%") and too_small_divisor(rv):
-        return
+        # a tiny divisor is judged when the quotient is an ordinary number
+        # all the same (a tiny dividend): denormals are in the domain
+        # (an Angle divisor below its tolerance is a zero divisor by
+        # documentation: only plain-number divisors are judged here)
+        if sym == "%" or lv == 0 or abs(ex.fr(lv) / ex.fr(rv)) > 1e15 \
+                or bt == "angle" or kind == "ref":
+            return
+        mon.cls("tiny-dividend-over-tiny-divisor", ident, [kind, op, av, bv])
     alias = a
     try:
         if kind == "bin":
@@ -791,6 +798,14 @@ def run(mon, spec):
             op = rng.choice(list(INP))
             bt, bv = gen_right(rng, op)
             p = ["inp", op, av, bt, bv]
+        # both operands tiny (down to the denormals): the quotient is an
+        # ordinary number
+        if p[1] in ("/", "/=") and p[0] in ("bin", "inp") \
+                and rng.random() < 0.06:
+            k = rng.choice((5e-324, 1e-320, 3e-310, 1e-317, 4e-309, 1e-300,
+                            2.5e-200, 1e-30, 1e-12))
+            p[3], p[4] = "float", k * rng.choice((1, -1, 3))
+            p[2] = k * rng.choice((1, 2, 405, -7, 2024, 0.5, 100000))
         # zero divisors on purpose
         if p[1] in ("/", "%", "/=", "%=") and rng.random() < 0.08:
             if p[0] == "ref":
